@@ -147,6 +147,15 @@ pub fn make_variant(base: &History, choices: &[u8]) -> Variant {
                     out.push(Step::Backward { h: map[*h], seed: seed.clone() });
                 }
             }
+            Step::Update { lr, params } => {
+                out.push(Step::Update { lr: *lr, params: params.iter().map(|h| map[*h]).collect() });
+                // the update re-binds the parameter's variable to a new array: an observer clone taken earlier
+                // keeps showing the old one, so the parameter is read through its own variable from here on
+                for h in params {
+                    obs[*h] = None;
+                }
+            }
+            Step::ClearGrad { h, via_replace } => out.push(Step::ClearGrad { h: map[*h], via_replace: *via_replace }),
             other => out.push(other.clone()),
         }
         // drop handles the program no longer names (their observers stay, to read results at the end)
@@ -253,7 +262,9 @@ impl CaseKind for Case12 {
 pub fn base_cfg(exact: bool, t: Tier) -> GenCfg {
     use Kind::*;
     let mut cfg = GenCfg::programs(exact);
-    cfg.kinds = vec![(Binary, 30), (Unary, 16), (Leaf, 8), (SumReshape, 8), (Matmul, 7), (Custom, 6), (Flag, 10), (Backward, 7), (Conv, 3), (Retrack, 4)];
+    // gradient-descent updates and clears are part of the base programs: whether a parameter's buffer is shared
+    // when the optimizer runs depends only on which handles are alive, which is what the variant changes
+    cfg.kinds = vec![(Binary, 30), (Unary, 16), (Leaf, 8), (SumReshape, 8), (Matmul, 7), (Custom, 6), (Flag, 10), (Backward, 9), (Conv, 3), (Retrack, 4), (Update, 5), (ClearGrad, 2)];
     cfg.flag_results = true;
     cfg.max_steps = t.pick(14, 36);
     cfg.max_elems = t.pick(48, 200);
